@@ -72,7 +72,7 @@ def keyfn(row):
 def run(ctx):
     sd = su.spec_dir()
     thorough = ctx.tier == "thorough"
-    exe = ctx.build("d_sidemeta")
+    exe = su.build(ctx)
     mcs = ["MC_SideMetaSearch_b1.cfg", "MC_SideMetaSearch_b2.cfg", "MC_SideMetaSearch_b16.cfg"]
     if thorough:
         mcs.append("MC_SideMetaSearch_b1_deep.cfg")
@@ -82,12 +82,12 @@ def run(ctx):
         ctx.tlc_mc("SideMetaSearch.tla", c, spec_dir=sd, expect_violation=True)
     runs = [("debug", exe)]
     if thorough:
-        runs.append(("release", ctx.build("d_sidemeta", release=True)))
+        runs.append(("release", su.build(ctx, release=True)))
     judged = ["FP", "FPU", "FN", "SC", "SCU"]
     nq = 0
     for name, binp in runs:
         out = os.path.join(ctx.work, "c22_%s.ndjson" % name)
-        summary = su.run_driver(ctx, binp, "c22", out)
+        summary = su.run_driver(ctx, binp, "c22", out, release=(name == "release"))
         total, n = su.count_rows(out, judged + ["Set", "Map", "Crash"])
         queries = 0
         with open(out) as f:
